@@ -1,6 +1,6 @@
 #!/usr/bin/env python3
-"""Hand-written coefficient / logic mutants from the original design lists.  Applies each to /repo, runs the
-named quick checks, restores /repo.  Not registered in the manifest: a construction-time sensitivity aid.
+"""Hand-written coefficient / logic mutants from the original design lists.  Works on a private copy of /repo
+(git worktree) and of /verif under /tmp/hm, so /repo itself is never touched; removes the copy at the end.  Not registered in the manifest: a construction-time sensitivity aid.
 Usage: tools/hand_mutants.py [name-substring]"""
 import subprocess, sys
 M = [
@@ -33,20 +33,26 @@ def sh(cmd):
 args = [a for a in sys.argv[1:] if a != "--suite"]
 suite = "--suite" in sys.argv
 flt = args[0] if args else ""
+ROOT = "/tmp/hm"
+sh("git -C /repo worktree remove --force %s/repo; rm -rf %s; mkdir -p %s" % (ROOT, ROOT, ROOT))
+sh("git -C /repo worktree add -q --detach %s/repo HEAD" % ROOT)
+sh("rsync -a --exclude harness/fuzz/target --exclude py/build --exclude .git /verif/ %s/verif/" % ROOT)
+sh("sed -i 's#path = \"/repo\"#path = \"%s/repo\"#' %s/verif/harness/Cargo.toml" % (ROOT, ROOT))
+import atexit
+atexit.register(lambda: sh("git -C /repo worktree remove --force %s/repo; rm -rf %s; git -C /repo worktree prune" % (ROOT, ROOT)))
 for name, f, old, new, checks in M:
     if flt not in name: continue
-    sh("git -C /repo reset -q --hard HEAD")
-    p = "/repo/" + f; s = open(p).read()
+    sh("git -C %s/repo reset -q --hard HEAD" % ROOT)
+    p = ROOT + "/repo/" + f; s = open(p).read()
     if s.count(old) < 1:
         print("%-28s PATTERN NOT FOUND" % name); continue
     open(p, "w").write(s.replace(old, new, 1))
     res = []
     for c in checks:
-        r = sh("cd /verif && ./check %s --tier quick" % c)
+        r = sh("cd %s/verif && ./check %s --tier quick" % (ROOT, c))
         why = [l for l in r.stdout.splitlines() if "oracle:" in l or "BUILD" in l or "INCONCL" in l]
         res.append("%s=%d%s" % (c, r.returncode, (" (" + why[0].strip()[:110] + ")") if why else ""))
     if suite:
-        r = sh("cd /repo && cargo test --workspace --no-fail-fast --offline 2>&1 | grep -c '^test result: FAILED\\|^error'")
+        r = sh("cd " + ROOT + "/repo && cargo test --workspace --no-fail-fast --offline 2>&1 | grep -c '^test result: FAILED\\|^error'")
         res.append("suite=" + ("passes" if r.stdout.strip() == "0" else "FAILS"))
     print("%-28s %s" % (name, " | ".join(res)), flush=True)
-    sh("git -C /repo reset -q --hard HEAD")
